@@ -11,7 +11,8 @@ MANIFEST = {
              'C12_no_panic / C12_allocator_no_panic / C12_alloc_progress / C12_link_entry: no expect() of generate_free_chunks/allocate_chunk can fire '
              '(progress invariant 2*max <= sum+1 /\\ 2*pairs_left <= sum on the trimmed per-host counts; link table covers every pair of hosts with a '
              'free proxy), for any store and any request; C12_replace_no_panic: replace_failed_proxy never panics under the invariant; '
-             'C12_replacement_host: a successful replacement is a free healthy proxy and is NOT on the surviving partner\'s host whenever some other '
+             'C12_allocated_registered: both allocators return pairwise distinct, registered, untagged proxies (the get-back expect()s are unreachable); '
+             'C12_replacement_host / _chunk / C12_partner_host_sound: a successful replacement is a free healthy proxy and is NOT on the surviving partner\'s host whenever some other '
              'host has a free healthy proxy. '
              'Correspondence: seeded random operation histories (plus a hand-written corpus) run on the real MetaStore and on the extracted model; '
              'after every operation the canonical store text and all cluster/proxy views are compared, and the monitors of harness/broker/src/mon.rs '
